@@ -159,6 +159,7 @@ package server
 //@   modifies *
 //@   callpre PrimitiveDecode: sincelastcall(v)
 //@   callpre AddAddresser.AddAddress: haskey(caller.hc.ports, a1) && (forall k net.Addr :: haskey(caller.hc.ports, k) && k != a1 ==> !cmpaddr(k, a1))
+//@   callpre AddAddresser.AddAddress: len(caller.hc.ports[a1]) >= 1
 //@   loop 11: invariant !found ==> (forall k net.Addr :: visited(k) ==> !cmpaddr(k, addr))
 //
 //@ func (*Honeytrap).Run$1
